@@ -221,6 +221,44 @@ def strCatItem : Item StrCat (Nat × Nat) (List Nat) where
     | some m => a.map (chApply m)
   act m a := a.map (chApply m)
 
+/-! ### `FlipZ` / `FlipB` (harness items): flip-a-range / count-ones.  Value `(ones, len)`, the modifier flips every
+bit of the range (non-idempotent, self-inverse).  `flipZItem` is lazy with the zero-sized modifier `()`;
+`flipBItem` has the same algebra with a one-byte modifier (odd = flip, even = nothing). -/
+
+structure Flip where
+  ones : Int
+  len : Int
+  fl : Bool
+  deriving Repr, DecidableEq
+
+def flipObs (a : Int × Int) : Int × Int := (a.2 - a.1, a.2)
+
+def Flip.flip (x : Flip) : Flip := ⟨x.len - x.ones, x.len, !x.fl⟩
+
+def flipZItem : Item Flip Unit (Int × Int) where
+  merge l r := ⟨l.ones + r.ones, l.len + r.len, false⟩
+  -- the trait's default `update`: `*self = merge(left, right)`
+  update _ l r := ⟨l.ones + r.ones, l.len + r.len, false⟩
+  modify x _ := x.flip
+  push p l r := if p.fl then (⟨p.ones, p.len, false⟩, l.flip, r.flip) else (p, l, r)
+  dflt := ⟨0, 0, false⟩
+  op a b := (a.1 + b.1, a.2 + b.2)
+  val x := (x.ones, x.len)
+  pa x a := if x.fl then flipObs a else a
+  act _ a := flipObs a
+
+def flipBItem : Item Flip Nat (Int × Int) where
+  merge l r := ⟨l.ones + r.ones, l.len + r.len, false⟩
+  -- the trait's default `update`: `*self = merge(left, right)`
+  update _ l r := ⟨l.ones + r.ones, l.len + r.len, false⟩
+  modify x m := if m % 2 = 1 then x.flip else x
+  push p l r := if p.fl then (⟨p.ones, p.len, false⟩, l.flip, r.flip) else (p, l, r)
+  dflt := ⟨0, 0, false⟩
+  op a b := (a.1 + b.1, a.2 + b.2)
+  val x := (x.ones, x.len)
+  pa x a := if x.fl then flipObs a else a
+  act m a := if m % 2 = 1 then flipObs a else a
+
 /-! ### `{:?}` renderings (what `debug()` and the harness print) -/
 
 def showOptPairI : Option (Int × Int) → String
@@ -242,6 +280,8 @@ def SumAdd.dbg (x : SumAdd) : String := s!"SumAdd \{ v: {x.v}, len: {x.len}, md:
 def AffHash.dbg (x : AffHash) : String :=
   s!"AffHash \{ h: {x.h}, pw: {x.pw}, s: {x.s}, md: {showOptPairI x.md} }"
 def StrCat.dbg (x : StrCat) : String := s!"StrCat \{ s: \"{letters x.s}\", md: {showOptPairN x.md} }"
+def Flip.dbg (name : String) (x : Flip) : String :=
+  s!"{name} \{ ones: {x.ones}, len: {x.len}, fl: {x.fl} }"
 def combDbg {T U : Type} (f : T → String) (g : U → String) (x : T × U) : String :=
   s!"Combinator({f x.1}, {g x.2})"
 
